@@ -624,7 +624,7 @@ func init() {
 	srcGen := &GenCfg{
 		Slabs: quickSlabs, MinOps: 0, MaxOps: 25,
 		W: map[string]int{"app": 10, "ins": 4, "set": 4, "rem": 4, "appN": 5, "remN": 2,
-			"mset": 14, "mrem": 5, "msetN": 6, "mremN": 2, "styp": 1, "reopen": 1, "commit": 1},
+			"mset": 14, "mrem": 5, "msetN": 6, "mremN": 2, "styp": 1, "reopen": 1, "commit": 1, "mgrow": 1},
 		Roots:   [][]RootSpec{{{K: "map", Addr: 1, TI: 2}}},
 		MaxBulk: 60, Keys: []int{12, 64, 300},
 		ValW: map[string]int{"u": 10, "s0": 4, "s1": 4, "s2": 2, "s4": 1, "s5": 2, "s6": 1, "some": 3, "arr": 3, "map": 2},
